@@ -286,6 +286,12 @@ var hashPrefixes = map[crypto.Hash][]byte{
 // messages to signatures and identify the signed messages. As ever,
 // signatures provide authenticity, not confidentiality.
 func SignPKCS1v15(random io.Reader, priv *PrivateKey, hash crypto.Hash, hashed []byte) ([]byte, error) {
+	// ZCrypto - reject a missing modulus and a missing or non-positive
+	// exponent before pub.Size() and decrypt dereference them.
+	if err := checkPub(&priv.PublicKey); err != nil {
+		return nil, err
+	}
+
 	// pkcs1v15ConstructEM is called before boring.SignRSAPKCS1v15 to return
 	// consistent errors, including ErrMessageTooLong.
 	em, err := pkcs1v15ConstructEM(&priv.PublicKey, hash, hashed)
